@@ -1,5 +1,5 @@
 (* C08 — comments, whitespace and letter case never change what is parsed (partial). *)
-From Secs Require Import Ast Fill Msg Lexer Parser SmlNumbers SmlProofs LexProofs LayoutProofs.
+From Secs Require Import Ast Fill Msg Lexer Parser SmlNumbers SmlProofs LexProofs ParseProofs LayoutProofs OffsetProofs.
 Open Scope Z_scope.
 
 (* any amount and kind of white space (blanks, tabs, CR, LF) in front of the
@@ -49,6 +49,23 @@ Theorem C08_fuel : forall alnum f g st s off, (length s < f)%nat -> (length s < 
   lex_from alnum f st s off = lex_from alnum g st s off.
 Proof. exact lex_fuel_irrelevant. Qed.
 Print Assumptions C08_fuel.
+
+(* the parser never looks at where a token is: with every token offset
+   replaced (any layout of the same tokens), the messages, the kinds of the
+   diagnostics and their order are the same; each diagnostic carries the token
+   it points at, so positions move with the tokens *)
+Theorem C08_positions_irrelevant : forall g, g zero_tok = 0 -> forall floats f st,
+  msgs (parse_loop floats f (R g st)) = msgs (parse_loop floats f st) /\
+  kinds (errs (parse_loop floats f (R g st))) = kinds (errs (parse_loop floats f st)) /\
+  kinds (warns (parse_loop floats f (R g st))) = kinds (warns (parse_loop floats f st)) /\
+  crashed (parse_loop floats f (R g st)) = crashed (parse_loop floats f st).
+Proof. exact parse_ignores_positions. Qed.
+Print Assumptions C08_positions_irrelevant.
+
+Theorem C08_diagnostics_follow_tokens : forall g, g zero_tok = 0 -> forall floats f st,
+  parse_loop floats f (R g st) = R g (parse_loop floats f st).
+Proof. exact parse_loop_R. Qed.
+Print Assumptions C08_diagnostics_follow_tokens.
 
 (* C08_gap_partial: gaps in front of the NEXT token are covered by
    C08_whitespace and C08_comment; that a gap after a token does not change
